@@ -560,57 +560,69 @@ def static_either(world, rend, files):
             if i != j and (inc & (own2 | inc2)):
                 either.add("block-override-through-include")
     # files that are included but themselves extend something
-    for f in files:
-        if f not in chain and any(k == "extends" for k, _ in rend[f].refs):
+    inc_targets = {t_ for f in files for k_, t_ in rend[f].refs if k_ == "include"}
+    for f in inc_targets:
+        if any(k == "extends" for k, _ in rend[f].refs):
             either.add("included-file-extends")
-    # variable scoping across apply blocks (documented as "may interact strangely")
+    # variable scoping across apply blocks (documented as "may interact strangely"):
+    # an apply body is a separate scope that is re-created on every execution
     assigns, reads = {}, []
     blocks = resolve_blocks(world, chain)
     counter = itertools.count(1)
     tracked = ("v", "i", "w")
 
-    def rd(src, scope):
+    def rd(src, scope, loops):
         for name in tracked:
             if _mentions(src, name):
-                reads.append((name, scope))
+                reads.append((name, scope, loops))
 
-    def scope_walk(fname, body, scope):
+    def scope_walk(fname, body, scope, loops):
         for node in body:
             k = node[0]
             if k in ("expr", "raw", "module"):
-                rd(node[1], scope)
+                rd(node[1], scope, loops)
             elif k == "set":
-                rd(node[2], scope)
-                assigns.setdefault(node[1], set()).add(scope)
+                rd(node[2], scope, loops)
+                assigns.setdefault(node[1], set()).add((scope, None))
             elif k == "include":
-                scope_walk(node[1], world["files"][node[1]], scope)
+                scope_walk(node[1], world["files"][node[1]], scope, loops)
             elif k == "block":
                 bf, bb = blocks[node[1]]
-                scope_walk(bf, bb, scope)
+                scope_walk(bf, bb, scope, loops)
             elif k == "apply":
-                rd(node[1], scope)
-                scope_walk(fname, node[2], scope + (next(counter),))
+                rd(node[1], scope, loops)
+                scope_walk(fname, node[2], scope + (next(counter),), loops)
             elif k in CONTAINERS:
-                if k == "for":
-                    rd(node[2], scope)
-                    assigns.setdefault(node[1], set()).add(scope)
-                elif k in ("if", "while"):
-                    rd(node[1], scope)
                 b, cls = parts_of(node)
-                scope_walk(fname, b, scope)
+                inner = loops
+                if k == "for":
+                    rd(node[2], scope, loops)
+                    lid = next(counter)
+                    assigns.setdefault(node[1], set()).add((scope, lid))
+                    inner = loops | {lid}
+                elif k in ("if", "while"):
+                    rd(node[1], scope, loops)
+                scope_walk(fname, b, scope, inner)
                 for cl in cls:
                     if cl[0] == "elif":
-                        rd(cl[1], scope)
-                    scope_walk(fname, clause_body(cl), scope)
-    scope_walk(chain[-1], world["files"][chain[-1]], ())
-    for name, scopes in assigns.items():
+                        rd(cl[1], scope, loops)
+                    scope_walk(fname, clause_body(cl), scope, loops)
+    scope_walk(chain[-1], world["files"][chain[-1]], (), frozenset())
+    for name, sites in assigns.items():
+        scopes = {sc for sc, _ in sites}
         if len(scopes) > 1:
             either.add("apply-scoping")
-        else:
-            (sc,) = scopes
-            for rname, rscope in reads:
-                if rname == name and rscope[:len(sc)] != sc:
-                    either.add("apply-scoping")
+            continue
+        (sc,) = scopes
+        for rname, rscope, rloops in reads:
+            if rname != name:
+                continue
+            if rscope[:len(sc)] != sc:
+                either.add("apply-scoping")
+            elif sc != () and not all(lid is not None and lid in rloops for _, lid in sites):
+                # assigned inside an apply body: only reads inside the body of
+                # every assigning for loop see the same value in both readings
+                either.add("apply-scoping")
     return either
 
 
